@@ -1360,8 +1360,18 @@ func plGenCfgX(r *vfRand) *plCfg {
 	}
 	if r.Chance(1, 2) {
 		n := 1 + r.Intn(4)
+		// urlfilter's sequential-scan table keeps one rule per rule text
+		seen := map[string]bool{}
+		for _, x := range c.Custom {
+			seen[x.Text()] = true
+		}
 		for i := 0; i < n; i++ {
-			c.Custom = append(c.Custom, plGenDrwRule(r, 50+i))
+			nr := plGenDrwRule(r, 50+i)
+			if seen[nr.Text()] {
+				continue
+			}
+			seen[nr.Text()] = true
+			c.Custom = append(c.Custom, nr)
 		}
 	}
 	if r.Chance(1, 4) {
